@@ -21,11 +21,13 @@ func init() {
 			"(R7) lock pairing over package modules (a lock left behind by the error-reporting path wedges the next recovery): " + lockRuleText + ". " +
 			"(R8) error discipline over package modules (an error of a lifecycle pass - including the one a panicking routine was converted into - must reach the caller): " + repoErrText + ". " +
 			"(R9) in Start, Shutdown and ManageModules the error of every prepare/start/stop pass flows into the function's returned error (it is not merely logged or overwritten by a later pass). " +
+			"(R10) reporting a panic never blocks the recovery handler (= C15-R5). " +
 			"NOT decided: panics in goroutines that user code spawns itself, process-level behaviour.",
 		Rules: []ruleFn{c06R1, c06R2, c06R3, c06R4, c06R5, c06R6,
 			lockRuleFor("C06-R7", 25, []string{"modules"}, []string{}, map[string]string{}),
 			repoErrRuleFor("C06-R8", 12, func(c *Ctx, fn *ssa.Function) bool { return short(fn.Pkg.Pkg.Path()) == "modules" }, map[string]string{"modules.(*Module).setFailure / modules.Module.RunWorker": "failure-status notification worker; its own panics are reported through the module error channel"}),
-			c06R9},
+			c06R9,
+			func(c *Ctx, r *Report) { reportNeverBlocksRule(c, r, "C06-R10") }},
 	})
 }
 
